@@ -185,7 +185,8 @@ class DistributedConfiguration:
             from mpi4py import MPI
             B = numpy.zeros(A.shape, dtype=A.dtype)
             self.comm.Allreduce(A, B, op=MPI.SUM)
-            A[:,:] = B
+            # (arrays of any number of dimensions)
+            A[...] = B
             
         else:
             raise Exception("Unknown reduction operation")      
